@@ -49,7 +49,18 @@ DVALS = [("0.0", 0.0), ("1.5", 1.5), ("-2.25", -2.25), ("123456789.125", 1234567
 IVALS = [0, 1, -1, 2147483647, -2147483647, -2147483648, 65536]
 
 
-def cases():
+def cases(extra=0, seed=1):
+    """extra: number of additional random int / double values (thorough tier)"""
+    global DVALS, IVALS
+    if extra:
+        r = common.Rng(seed, 201)
+        iv = list(IVALS) + [r.range(-2**31, 2**31 - 1) for _ in range(extra)]
+        dv = list(DVALS)
+        for _ in range(extra):
+            m, e = r.range(-2**52, 2**52), r.range(-60, 60)
+            x = float(m) * (2.0 ** e)
+            dv.append((repr(x), x))
+        IVALS, DVALS = iv, [d for d in dv if "e" not in d[0] or True]
     out = []
 
     def prog(body):
@@ -130,7 +141,7 @@ def main(a):
     if r.returncode != 0:
         v.violation("cannot build the echo library: " + r.stdout[-400:], {"log": r.stdout[-2000:]}, no_input=True)
         return v.finish()
-    cs = cases()
+    cs = cases(0 if a.tier == "quick" else 150, a.seed)
     if a.replay:
         rp = json.load(open(a.replay))
         cs = [c for c in cs if c[0] == rp["case"]]
